@@ -13,6 +13,7 @@ EXPLANATION = (
     "boundaries field. R02.4: iter_tokens starts at (0,0); Token::surface = text_substring(start,end) and text_substring "
     "slices char_to_str_pos[start]..char_to_str_pos[end]; Token::tags = tags[(end-1)*n_tags .. end*n_tags]."
 )
+THOROUGH_CONFIGS = [C.MINIMAL, C.NO_TAG]
 NOT_DECIDED = [
     "that surfaces concatenate to the text as values (content of char_to_str_pos; sizing facts are in C05)",
 ]
@@ -21,8 +22,7 @@ W_, N_, U_ = "WordBoundary", "NotWordBoundary", "Unknown"
 
 
 def run(chk):
-    w = facts.world("W")
-    chk.configs.add("W")
+    w = C.world_for(chk)
     chk.rule("R02.1", "token iterator transition table equals the specification for all (label, skip) cases")
     chk.rule("R02.2", "stored positions are base+i+1 in the loop-invariant header state; last token ends at len()+1")
     chk.rule("R02.3", "write_tokenized_text goes through the iterator and never reads Sentence.boundaries")
